@@ -666,7 +666,7 @@ func checkC03(rep *core.Report) {
 	}
 	// ---- R03.6 ----
 	if uo := prog.Method("ipfix", "TemplateRecord", "unmarshalOpts"); uo != nil {
-		checkTemplateCounts(prog, r6, uo, map[string]string{"ScopeFieldSpecifiers": "obj:th.ScopeFieldCount", "FieldSpecifiers": "(obj:th.FieldCount-obj:th.ScopeFieldCount)"})
+		checkTemplateCounts(prog, r6, uo, map[string]string{"ScopeFieldSpecifiers": "obj:TemplateHeader.ScopeFieldCount", "FieldSpecifiers": "(obj:TemplateHeader.FieldCount-obj:TemplateHeader.ScopeFieldCount)"})
 	} else {
 		r6.Undecided("ipfix:unmarshalOpts", token.NoPos, "options template parser not found")
 	}
@@ -707,7 +707,7 @@ func checkC06(rep *core.Report) {
 		}
 	}
 	if uo := prog.Method("netflow/v9", "TemplateRecord", "unmarshalOpts"); uo != nil {
-		checkTemplateCounts(prog, r1, uo, map[string]string{"ScopeFieldSpecifiers": "(obj:th.OptionScopeLen/4)", "FieldSpecifiers": "(obj:th.OptionLen/4)"})
+		checkTemplateCounts(prog, r1, uo, map[string]string{"ScopeFieldSpecifiers": "(obj:TemplateHeader.OptionScopeLen/4)", "FieldSpecifiers": "(obj:TemplateHeader.OptionLen/4)"})
 	} else {
 		r1.Undecided("netflow/v9:unmarshalOpts", token.NoPos, "options template parser not found")
 	}
